@@ -831,8 +831,10 @@ class MessageManager(ClientLike):
         for i, (sock, module) in enumerate(self.modules.items()):
             # if sock == self.listen_socket:
             #     continue
-            msg.client_mod_id[i] = module.mod_id
-            msg.client_pid[i] = module.pid
+            # The summary table holds MAX_ACTIVE_CLIENTS entries; CLIENT_INFO is still sent for every module
+            if i < cd.MAX_ACTIVE_CLIENTS:
+                msg.client_mod_id[i] = module.mod_id
+                msg.client_pid[i] = module.pid
             self.send_client_info(module)
 
         msg.num_clients = len(self.modules) - 1
